@@ -161,3 +161,11 @@ func VH_C17_LocalExtraDiffers() {
 	vhAssert(err == nil && len(rd.File) == 2 && rd.DirLoc == int64(cdStart) && int(rd.File[1].Offset) == ms[1].off, "re-indexed-archive-reads-back")
 	vhReach("sized") // vh:require sized
 }
+
+// H08.zip-twice: registered under C08 as well - signing a zip-based package a
+// second time starts from an archive zipslicer wrote itself.
+func VH_C08_ZipSecondRound() { VH_C17_WrittenArchiveReadBack() }
+
+// H03.zip-extra: registered under C03 as well - re-indexing must leave every
+// member where it is whatever the local/central extra lengths are.
+func VH_C03_ZipLocalExtraKept() { VH_C17_LocalExtraDiffers() }
